@@ -153,3 +153,118 @@ def inline_calls(body, pick, crate, max_rounds=24, sub=None, max_blocks=3000):
     if used:
         cur.inlined_from = used
     return cur
+
+
+# ---------------------------------------------------------------------------------------------------------------------
+# Desugaring of the short-circuiting iterator adaptors  it.all(|x| P(x))  /  it.any(|x| P(x))  into the loop they denote
+#     loop { match it.next() { None => break <all: true | any: false>,
+#                              Some(x) => if <all: !P(x) | any: P(x)> { break <all: false | any: true> } } }
+# with the closure body inlined, so that rules written for `for` loops see the same shape (documented std semantics).
+ADAPTORS = {'std::iter::Iterator::all': 'all', 'std::iter::Iterator::any': 'any'}
+
+
+def _closure_of(body, local):
+    """path of the closure literal assigned (once) to `local`, or None"""
+    hit = []
+    for blk in body.blocks:
+        if blk['cleanup']:
+            continue
+        for st in blk['stmts']:
+            if st['k'] == 'assign' and st['place']['l'] == local and not st['place']['p']:
+                rv = st['rv']
+                if rv['k'] == 'agg' and rv.get('agg') == 'closure':
+                    hit.append(rv['closure'])
+                else:
+                    return None
+        t = blk['term']
+        if t['k'] == 'call' and t['dest']['l'] == local:
+            return None
+    return hit[0] if len(hit) == 1 else None
+
+
+def desugar_once(body, bi, cb, kind):
+    j = copy.deepcopy(body.j)
+    t = j['blocks'][bi]['term']
+    span = j['blocks'][bi]['tspan']
+    target, dest = t['target'], t['dest']
+    a_it, a_clo = t['args'][0], t['args'][1]
+    clo_local = (a_clo.get('move') or a_clo.get('copy'))['l']
+    env_ty = cb.locals[1]['ty']
+    item_ty = cb.locals[2]['ty']
+
+    def new_local(ty, name=None):
+        j['locals'].append({'ty': ty, 'name': name, 'mut': True})
+        return len(j['locals']) - 1
+    itp = a_it.get('move') or a_it.get('copy')
+    if itp is not None and not itp['p']:
+        it = itp['l']
+    else:
+        it = new_local(t['func'].get('self_ty') or 'iter')
+        j['blocks'][bi]['stmts'].append({'k': 'assign', 'place': {'l': it, 'p': []}, 'rv': {'k': 'use', 'op': a_it}, 'span': span})
+    it_ref = new_local('&mut ' + j['locals'][it]['ty'])
+    opt = new_local('std::option::Option<%s>' % item_ty)
+    disc = new_local('isize')
+    item = new_local(item_ty)
+    env = new_local(env_ty)
+    r = new_local('bool')
+    n0 = len(j['blocks'])
+    n_next, n_sw, n_call, n_test, n_end, n_short = n0, n0 + 1, n0 + 2, n0 + 3, n0 + 4, n0 + 5
+
+    def blk(stmts, term):
+        return {'stmts': stmts, 'term': term, 'tspan': span, 'cleanup': False}
+
+    def assign(l, rv):
+        return {'k': 'assign', 'place': {'l': l, 'p': []}, 'rv': rv, 'span': span}
+
+    def cbool(v):
+        return {'const': {'ty': 'bool', 'bits': '1' if v else '0', 'val': v, 'dbg': 'true' if v else 'false'}}
+    j['blocks'][bi]['term'] = {'k': 'goto', 'target': n_next}
+    j['blocks'].append(blk([assign(it_ref, {'k': 'ref', 'mut': True, 'place': {'l': it, 'p': []}})],
+                           {'k': 'call', 'func': {'path': 'std::iter::Iterator::next', 'full': 'std::iter::Iterator::next', 'name': 'next', 'trait': 'std::iter::Iterator', 'gargs': []},
+                            'args': [{'move': {'l': it_ref, 'p': []}}], 'dest': {'l': opt, 'p': []}, 'target': n_sw, 'unwind': None}))
+    j['blocks'].append(blk([assign(disc, {'k': 'discr', 'place': {'l': opt, 'p': []}})],
+                           {'k': 'switch', 'discr': {'move': {'l': disc, 'p': []}}, 'targets': [['0', n_end], ['1', n_call]], 'otherwise': n_end}))
+    some0 = {'l': opt, 'p': [{'down': 1, 'name': 'Some'}, {'f': 0, 'name': '0', 'ty': item_ty}]}
+    j['blocks'].append(blk([assign(item, {'k': 'use', 'op': {'move': some0}}),
+                            assign(env, {'k': 'ref', 'mut': env_ty.startswith('&mut'), 'place': {'l': clo_local, 'p': []}})],
+                           {'k': 'call', 'func': {'path': cb.path, 'full': cb.path, 'name': 'call', 'gargs': []},
+                            'args': [{'move': {'l': env, 'p': []}}, {'move': {'l': item, 'p': []}}],
+                            'dest': {'l': r, 'p': []}, 'target': n_test, 'unwind': None}))
+    if kind == 'all':
+        sw = {'k': 'switch', 'discr': {'move': {'l': r, 'p': []}}, 'targets': [['0', n_short]], 'otherwise': n_next}
+    else:
+        sw = {'k': 'switch', 'discr': {'move': {'l': r, 'p': []}}, 'targets': [['0', n_next]], 'otherwise': n_short}
+    j['blocks'].append(blk([], sw))
+    j['blocks'].append(blk([{'k': 'assign', 'place': dest, 'rv': {'k': 'use', 'op': cbool(kind == 'all')}, 'span': span}],
+                           {'k': 'goto', 'target': target}))
+    j['blocks'].append(blk([{'k': 'assign', 'place': dest, 'rv': {'k': 'use', 'op': cbool(kind != 'all')}, 'span': span}],
+                           {'k': 'goto', 'target': target}))
+    nb = Body(j, body.crate)
+    return inline_once(nb, n_call, cb)
+
+
+def desugar_adaptors(body, crate, max_rounds=8):
+    cur = body
+    used = set()
+    for _ in range(max_rounds):
+        did = False
+        for bi, t in list(cur.calls()):
+            kind = ADAPTORS.get(t['func'].get('path'))
+            if kind is None or len(t['args']) != 2 or t['target'] is None:
+                continue
+            cp = t['args'][1].get('move') or t['args'][1].get('copy')
+            if cp is None or cp['p']:
+                continue
+            path = _closure_of(cur, cp['l'])
+            cb = crate.body(path) if path else None
+            if cb is None or cb.arg_count != 2 or cb.j.get('ret_ty', 'bool') not in ('bool',):
+                continue
+            cur = desugar_once(cur, bi, cb, kind)
+            used.add(path)
+            did = True
+            break
+        if not did:
+            break
+    if used:
+        cur.inlined_from = set(getattr(body, 'inlined_from', set())) | used
+    return cur
